@@ -1,7 +1,10 @@
 #!/bin/bash
-# usage: try_mutant.sh <PROP> <patch.diff> [tier]   applies the patch to /repo, runs the check, reverts.
+# usage: try_mutant.sh <PROP> <patch.diff> [tier]   applies the patch to the repository, runs the check, reverts.
+# env: REPO (default /repo), VERIF_DIR (default /verif) - a snapshot pair lets evaluations run beside development
 PROP=$1; P=$2; TIER=${3:-quick}
-cd /repo && git apply $P || { echo "patch does not apply to /repo"; exit 9; }
-cd /verif && timeout 3000 ./bin/verifctl check $PROP --tier $TIER > /tmp/try-$PROP.log 2>&1; RC=$?
-git -C /repo checkout -- . ; git -C /repo clean -fdq
-echo "TRY $PROP $P: exit=$RC violations=$(grep -c '^VIOLATION' /tmp/try-$PROP.log)"; grep -a -A1 '^VIOLATION' /tmp/try-$PROP.log | head -6 | cut -c1-300; grep -a '^INCOMPLETE' /tmp/try-$PROP.log | head -3 | cut -c1-300; tail -1 /tmp/try-$PROP.log | cut -c1-300
+REPO=${REPO:-/repo}; V=${VERIF_DIR:-/verif}
+cd $REPO && git apply $P || { echo "patch does not apply to $REPO"; exit 9; }
+cd $V && VERIF_DIR=$V timeout 3000 ./bin/verifctl check $PROP --tier $TIER --workers ${WORKERS:-16} > /tmp/try-$PROP-$$.log 2>&1; RC=$?
+git -C $REPO checkout -- . ; git -C $REPO clean -fdq
+echo "TRY $PROP $P: exit=$RC violations=$(grep -c '^VIOLATION' /tmp/try-$PROP-$$.log)"; grep -a -A1 '^VIOLATION' /tmp/try-$PROP-$$.log | head -6 | cut -c1-300; grep -a '^INCOMPLETE' /tmp/try-$PROP-$$.log | head -3 | cut -c1-300; tail -n 1 /tmp/try-$PROP-$$.log | cut -c1-300
+cp /tmp/try-$PROP-$$.log /tmp/try-$PROP.log; rm -f /tmp/try-$PROP-$$.log
